@@ -1,4 +1,4 @@
-"""C19 - scalings: structural part (NaN-safety, do/undo inverse, increasing forward map, min range)."""
+"""C19 - scalings: structural part (NaN-safety, do/undo inverse, increasing forward map, min range, continuity and edge agreement of step scaling)."""
 from sa.rules import scaling
 
 LEVEL = 'other'
@@ -9,8 +9,8 @@ def check(ctx):
     scaling.inverse_pairs(ctx, 'C19-R2')
     scaling.minrange(ctx, 'C19-R4')
     scaling.continuity_offset_guard(ctx, 'C19-R5')
-    ctx.undecided += ['continuity of step scaling across its steps and the agreement of the inverse bin edges '
-                      '(edges_out) with do(edges_in): a consistent off-by-one in both offset computations is invisible '
-                      'to the algebraic inverse check', 'that min-max scaling lands in [0, 1] numerically',
+    scaling.step_continuity(ctx, 'C19-R6')
+    ctx.undecided += ['step scaling with more than 5 step edges (the property quantifies over 0..4; R6 instantiates 0..5)',
+                      'that min-max scaling lands in [0, 1] numerically',
                       'floating-point round-trip error of undo(do(x))']
     ctx.assumptions += ['scale > 0, max_val > min_val, step scales > 0 (A5); exact-real arithmetic']
